@@ -550,15 +550,18 @@ def seq_case(ctx: Ctx, batch: Batch | None, eqs, kind):
         # repeated LHS names are outside the model's claim (known finding sequential-repeated-lhs): oracle only
         batch.add(case, req, reply)
     # ---- oracle (property statement) ----
+    # clauses that hold for EVERY model (theorems sequentialize_never_returns_non_permutation, sequentialize_error_state_unchanged):
+    # a returned order is a permutation, the equations are then in that order, a raise leaves them untouched -> always site `sequentialize`;
+    # only validity / existence of an order are excused for repeated LHS names (known finding)
     site = "sequential-repeated-lhs" if repeated else "sequentialize"
     if kind == "selfref":
         ctx.count("seq:selfref:accepted" if order is not None else "seq:selfref:rejected")
     if order is not None:
         order = [int(i) for i in order]
         if sorted(order) != list(range(len(eqs))):
-            ctx.fail(site, case, f"returned order {order} is not a permutation")
+            ctx.fail("sequentialize", case, f"returned order {order} is not a permutation")
         elif after != ([order[i] for i in range(len(order))] if not isseq else list(range(len(eqs)))):
-            ctx.fail(site, case, f"equations after sequentialize() are {after}, returned order {order}")
+            ctx.fail("sequentialize", case, f"equations after sequentialize() are {after}, returned order {order}")
         elif not seq_valid([eqs[i] for i in after]):
             ctx.fail(site, case, f"order {order}: an equation reads a zero-shift LHS name that no earlier equation determines")
         else:
@@ -569,7 +572,7 @@ def seq_case(ctx: Ctx, batch: Batch | None, eqs, kind):
                 ctx.nontriv(("seq-reordered", len(eqs), tuple(order[:6])))
     else:
         if after != list(range(len(eqs))):
-            ctx.fail(site, case, f"sequentialize() raised but the equations are now in order {after}")
+            ctx.fail("sequentialize", case, f"sequentialize() raised but the equations are now in order {after}")
         elif seq_order_exists(eqs):
             ctx.fail(site, case, "sequentialize() raised although a valid order exists")
         else:
@@ -629,8 +632,12 @@ def seqops_case(ctx: Ctx, batch: Batch | None, eqs, ops, kind):
     against the order the equations were in just before that call"""
     case = {"kind": "seqops", "eqs": [[e[0], list(e[1]), list(e[2]), list(e[3])] for e in eqs], "ops": ops, "tag": kind}
     n = len(eqs)
-    if len({e[0] for e in eqs}) < n:
-        return   # repeated LHS names: known finding, judged by the single-call stream only
+    repeated = len({e[0] for e in eqs}) < n
+    if repeated:
+        # repeated LHS names (known finding): only the clauses that hold for every model are judged (permutation, state = order applied,
+        # a raise leaves the equations untouched); nothing is compared with the Lean model
+        batch = None
+        ctx.count("seqops:models-with-repeated-lhs")
     m = ir.Sequential.from_string(seq_source(eqs))
     humans = [e.human for e in m.equations]
     idx = {h: i for i, h in enumerate(humans)}
@@ -671,6 +678,8 @@ def seqops_case(ctx: Ctx, batch: Batch | None, eqs, ops, kind):
                     ctx.fail("sequentialize", case, f"after {ops}: returned order {order} is not a permutation")
                 elif state != [before[i] for i in order]:
                     ctx.fail("sequentialize", case, f"after {ops}: equations were {before}, returned order {order}, equations now {state}")
+                elif repeated:
+                    pass
                 elif not seq_valid([eqs[i] for i in state]):
                     ctx.fail("sequentialize", case, f"after {ops}: sequentialize() returned {order} and left the equations in order {state}, "
                                                     "in which an equation reads a zero-shift LHS name that no earlier equation determines")
@@ -679,8 +688,10 @@ def seqops_case(ctx: Ctx, batch: Batch | None, eqs, ops, kind):
             else:
                 if state != before:
                     ctx.fail("sequentialize", case, f"after {ops}: sequentialize() raised but the equations moved from {before} to {state}")
-                elif seq_order_exists(cur):
+                elif not repeated and seq_order_exists(cur):
                     ctx.fail("sequentialize", case, f"after {ops}: sequentialize() raised although a valid order of the equations exists")
+                else:
+                    ctx.count("seqops:raise-left-order-untouched")
             if any(o[0] == "r" for o in ops[:k_op]) and before != list(range(n)):
                 ctx.count("seqops:sequentialize-after-reorder")
         if -1 in state:
@@ -695,7 +706,7 @@ def run_seqops(ctx: Ctx, oracle_only=False, scale=1):
     rng = ctx.rng.fork("seqops")
     b = None if oracle_only else Batch(ctx, "sequential-histories")
     for _ in range(ctx.n(250, 3000) * scale):
-        kind = rng.weighted([("dag", 6), ("cyclic", 2)])
+        kind = rng.weighted([("dag", 6), ("cyclic", 3), ("repeated", 2)])
         eqs = gen_seq(rng, kind)
         if len(eqs) > 9 and rng.chance(0.7):
             eqs = gen_seq(rng, kind)
